@@ -465,6 +465,18 @@ func (g *gen) next() HOp {
 				}
 			}
 		}
+		// half of the wrong redirect_uri presentations are the omitted one, sent together with a code_verifier (the right
+		// one when the code has a challenge): the binding to the redirect_uri must not depend on other parameters of the
+		// token request (no draw from the PRNG)
+		if t.redirect != "" && op.Redirect != t.redirect && !op.PublicBasic && len(g.h.Ops)%2 == 0 {
+			op.Redirect = ""
+			if op.Verifier == "" {
+				op.Verifier = t.verifier
+				if op.Verifier == "" {
+					op.Verifier = "omitted-redirect-with-a-verifier-0123456789abcdefghij"
+				}
+			}
+		}
 		return op
 	case pick(p.WRefresh):
 		i := g.pickTok("refresh", func(t *gTok) bool { return !t.used || r.Chance(40) })
@@ -612,6 +624,7 @@ func (g *gen) next() HOp {
 		if op.Auth >= 0 && g.h.Clients[op.Auth].Public && op.BodyClient >= 0 {
 			op.BodyClient = op.Auth // a public client is identified by the body's client_id
 		}
+		op.IDInQuery = op.BodyClient >= 0 && len(g.h.Ops)%5 < 2 // no draw from the PRNG: the histories of every seed stay what they were
 		owner := c
 		if op.Auth >= 0 {
 			owner = op.Auth
@@ -705,6 +718,10 @@ func (g *gen) next() HOp {
 				op.Granted = op.Granted[:len(op.Granted)-1]
 			}
 			op.GAud = append([]string{}, g.toks[i].aud...)
+			// partial consent to the audience (no draw from the PRNG)
+			if len(op.GAud) > 0 && len(g.h.Ops)%3 == 0 {
+				op.GAud = op.GAud[:len(op.GAud)-1]
+			}
 		}
 		return op
 	case pick(p.WDevicePoll):
@@ -846,6 +863,18 @@ func genHistory(t *testing.T, r *RNG, p *Profile) (*HHistory, []HObs) {
 			verifier := op.Verifier
 			if op.Kind == "authorize" || op.Kind == "push" || op.Kind == "authorize_par" {
 				op.Verifier = ""
+			}
+			// every other presentation of a never-issued token is an issued one of the matching kind with white space
+			// appended (no draw from the PRNG: the histories of every seed keep their operations)
+			if op.Tok.Ref < 0 && len(g.h.Ops)%2 == 0 {
+				want := map[string]string{"redeem": "code", "refresh": "refresh", "device_poll": "device", "authorize_par": "par"}[op.Kind]
+				for j := len(g.toks) - 1; j >= 0; j-- {
+					k := g.toks[j].kind
+					if k == want || (want == "" && (k == "access" || k == "refresh") && (op.Kind == "introspect" || op.Kind == "introspect_ep" || op.Kind == "revoke")) {
+						op.Tok.PadOf, op.Tok.Pad = j+1, []string{" ", "\n", "\t", "  "}[len(g.h.Ops)/2%4]
+						break
+					}
+				}
 			}
 			o := w.exec(&op)
 			o.Probes = w.probe()
